@@ -1226,14 +1226,20 @@ def A1(ctx, rule="A1"):
     for e in m.entries:
         bodies |= m.reach(e["id"])
     n = 0
-    for bid in sorted(bodies):
+    # outside coroutines (a per-child closure, `FnRef::drop`) a future cannot be awaited at all: an async channel / lock
+    # operation written there (`send` for `try_send`) only builds a future that is dropped
+    sync_bodies = {x.id for x in fb.prod_bodies() if x.kind != "coroutine"}
+    for bid in sorted(bodies | sync_bodies):
         b = fb.bodies[bid]
-        if b.kind != "coroutine":
+        if fb.is_test_body(b):
             continue
         for bb, t in b.calls():
             dty = t["dest"]["ty"]
             c = t.get("callee") or {}
             if not ("Future<Output" in dty or dty.startswith("impl futures::Future") or dty.startswith("impl std::future::Future")):
+                continue
+            if b.kind != "coroutine" and not (callee_path(t) or "").startswith(("tokio::sync::mpsc::", "tokio::sync::RwLock", "tokio::sync::Mutex",
+                                                                                 "tokio::sync::Semaphore", "tokio::sync::oneshot")):
                 continue
             if t["sp"].get("exp") and t["sp"].get("desugar") == "Await":
                 continue
